@@ -848,82 +848,6 @@ Proof.
       rewrite E'. fin.
 Qed.
 
-(* ------------------------------------------------------------------ trees: structural induction *)
-(* every leaf of the tree satisfies the contract on its own (the hypothesis discharged by testing) *)
-Fixpoint leaves_ok (w : widget) : Prop :=
-  match w with
-  | WLeaf d => Good (leaf_sem d)
-  | WAttr w => leaves_ok w
-  | WBoxAdapter w _ => leaves_ok w
-  | WPadding w _ _ _ _ _ => leaves_ok w
-  | WFiller w _ _ _ _ _ => leaves_ok w
-  | WPile items _ => leaves_ok_p items
-  | WColumns items _ _ _ => leaves_ok_c items
-  | WFrame body hd ft _ => leaves_ok body /\ leaves_ok_o hd /\ leaves_ok_o ft
-  | WOverlay t b _ => leaves_ok t /\ leaves_ok b
-  end
-with leaves_ok_p (l : pitems) : Prop :=
-  match l with PNil => True | PCons w _ _ r => leaves_ok w /\ leaves_ok_p r end
-with leaves_ok_c (l : citems) : Prop :=
-  match l with CNil => True | CCons w _ _ _ r => leaves_ok w /\ leaves_ok_c r end
-with leaves_ok_o (o : owidget) : Prop :=
-  match o with ONone => True | OSome w => leaves_ok w end.
-
-(* the constructors and options covered by the proof so far *)
-Fixpoint proved_fragment (w : widget) : bool :=
-  match w with
-  | WLeaf _ => true
-  | WAttr w => proved_fragment w
-  | WBoxAdapter w _ => proved_fragment w
-  | WPadding w _ wt _ _ _ => proved_fragment w && (match wt with WClip => false | _ => true end)
-  | WFiller w _ _ _ _ _ => proved_fragment w
-  | WPile items _ => proved_fragment_p items && (match items with PNil => false | _ => true end)
-  | WColumns _ _ _ _ => false
-  | WFrame _ _ _ _ => false
-  | WOverlay _ _ _ => false
-  end
-with proved_fragment_p (l : pitems) : bool :=
-  match l with PNil => true | PCons w _ _ r => proved_fragment w && proved_fragment_p r end.
-
-Scheme widget_mut := Induction for widget Sort Prop
-  with pitems_mut := Induction for pitems Sort Prop
-  with citems_mut := Induction for citems Sort Prop
-  with owidget_mut := Induction for owidget Sort Prop.
-
-Lemma denote_p_nonempty items : (match items with PNil => false | _ => true end) = true -> denote_p items <> [].
-Proof. destruct items; cbn; [discriminate|]. intros _ H. discriminate. Qed.
-
-Theorem contract_by_structural_induction :
-  forall w, wf_b w = true -> proved_fragment w = true -> leaves_ok w -> Good (denote w).
-Proof.
-  apply (widget_mut
-    (fun w => wf_b w = true -> proved_fragment w = true -> leaves_ok w -> Good (denote w))
-    (fun l => forall ps, wf_p l ps = true -> proved_fragment_p l = true -> leaves_ok_p l ->
-              Forall pgood (denote_p l) /\ Forall (pile_ok ps) (denote_p l))
-    (fun _ => True) (fun _ => True)); cbn [wf_b proved_fragment leaves_ok denote]; auto.
-  - (* attr *) intros w IH Hw Hf Hl. apply attr_good; auto.
-  - (* boxadapter *) intros w IH h Hw Hf Hl. apply boxadapter_good; try lia. apply IH; auto; lia.
-  - (* padding *) intros w IH a wt mw l r Hw Hf Hl.
-    apply padding_good; try lia.
-    + apply IH; auto; lia.
-    + destruct wt; try discriminate; lia.
-  - (* filler *) intros w IH va ht mh t b Hw Hf Hl.
-    apply filler_good; try lia. apply IH; auto; lia.
-  - (* pile *) intros items IH fp Hw Hf Hl.
-    destruct (IH (pile_sizing (denote_p items)) ltac:(lia) ltac:(lia) Hl) as [A B].
-    apply pile_good; auto. apply denote_p_nonempty. lia.
-  - (* columns, frame, overlay: outside the fragment *) intros; discriminate.
-  - intros; discriminate.
-  - intros; discriminate.
-  - (* PNil *) intros ps _ _ _. split; constructor.
-  - (* PCons *) intros w IHw k n r IHr ps Hw Hf Hl. cbn [wf_p proved_fragment_p leaves_ok_p denote_p] in *.
-    destruct Hl as [Hl1 Hl2].
-    destruct (IHr ps ltac:(lia) ltac:(lia) Hl2) as [A B].
-    split; constructor; auto.
-    + unfold pgood. cbn. apply IHw; auto; lia.
-    + unfold pile_ok. cbn. lia.
-Qed.
-
 (* ------------------------------------------------------------------ leaves: a sufficient condition on the reported data *)
 Definition canvas_ok (c r : Z) (v : res canv) : Prop :=
   match v with
